@@ -496,7 +496,7 @@ func genCase(t *rapid.T) Case {
 		} else {
 			sets = optSets
 		}
-		tr := Trial{Opts: sets[g.intn("optset", len(sets))], Names: g.names(candNames), Dup: rapid.Bool().Draw(t, "dup"), Funcs: g.intn("funcs", 4) == 0, FMeth: g.intn("fmeth", 4) == 0}
+		tr := Trial{Opts: sets[g.intn("optset", len(sets))], Names: g.names(candNames), Dup: rapid.Bool().Draw(t, "dup"), Funcs: g.intn("funcs", 4) == 0, FMeth: g.intn("fmeth", 4) == 0, Collide: max(0, g.intn("collide", 12)-5)}
 		c.Trials = append(c.Trials, tr)
 	}
 	return c
